@@ -41,7 +41,7 @@ def run(run, h):
                 for mode in (modes if rd == 0 else [rng.choice(modes)]):
                     known_case(run, h, pts, batch, rng, grp, n, mode)
             for special in ("all_zero", "all_one", "all_minus_one", "solved_identity", "solved_h", "message_part_cancels", "bit_patterns", "bit_patterns",
-                            "zero_blinding_factor", "zero_message_nonzero_bf"):
+                            "zero_blinding_factor", "zero_message_nonzero_bf") + tuple(rng.sample(SHAPES, 3 if run.tier == "quick" else len(SHAPES))):
                 known_case(run, h, pts, batch, rng, grp, n, "rand", special)
             generated_case(run, h, pts, rng, grp, n)
             key_params_case(run, h, rng, grp, n)
@@ -69,6 +69,9 @@ def known_case(run, h, pts, batch, rng, grp, n, mode, special=None):
         ms = [m if m else 1 for m in ms]
     elif special == "zero_message_nonzero_bf":
         ms, bf = [0] * n, rand_nz(rng)
+    elif special in SHAPES:
+        ms = shaped_tuple(rng, n, special)
+        bf = rng.choice([bf, rng.randrange(2 ** 63, 2 ** 64), rng.randrange(128), 2 ** 32 + rng.randrange(-2, 3)])
     elif special == "bit_patterns":
         ms, bf = [rng.choice(PATTERNS) for _ in range(n)], rng.choice(PATTERNS)
     elif special == "message_part_cancels":
